@@ -322,6 +322,34 @@ Prop_Paths ==
          LET newK == KeysOf(st', w) \ KeysOf(st, w) IN
          ChkA(\A k \in newK : PathFresh(hv, w, k), "PathsUnique")]_vars
 
+\* C04: after a successful refresh the books of the active account equal the chain
+\* (for histories without cancel-after-broadcast; there are no forks in this model)
+DirtyNow(s, w) == \E t \in DOMAIN s.w[w].txs :
+                    /\ s.w[w].txs[t].ty \in {"TxSentCancelled", "TxReceivedCancelled"}
+                    /\ s.w[w].txs[t].slate \in (s.pool \cup Mined(s)) \cap DOMAIN s.body
+BooksOK(s, w) ==
+  LET a == s.w[w].active
+      mine == {k \in OutsOfAcct(s, w, a) : s.w[w].outs[k].st \in {"Unspent", "Locked"}}
+      u == Utxo(s)
+      T == {t \in DOMAIN s.w[w].txs : s.w[w].txs[t].acct = a /\ s.w[w].txs[t].conf}
+      bal == SumF([k \in mine |-> s.w[w].outs[k].v], mine) IN
+  /\ \A k \in mine : OID(s, w, k) \in u
+  /\ \A k \in OutsOfAcct(s, w, a) : (OID(s, w, k) \in u /\ s.w[w].outs[k].st # "Unconfirmed") => k \in mine
+  /\ SumF([t \in T |-> s.w[w].txs[t].cr], T) - SumF([t \in T |-> s.w[w].txs[t].db], T) = bal
+Prop_Books ==
+  [][Stepped /\ Ev.ev = "refresh" /\ ~(\E i \in 1..Len(hist') : hist'[i].ev = "cancel") =>
+       ChkA(BooksOK(st', Ev.w), "BooksEqualChain")]_vars
+\* account isolation: a step with source account a changes no output of another account
+Prop_Isolation ==
+  [][Stepped /\ Ev.ev \in {"init_send", "lock", "finalize", "cancel", "process_invoice"} /\ Ev.w = "w1" =>
+       LET a == IF Ev.ev = "init_send" THEN AcctOf(st, "w1", Ev.src) ELSE
+                IF "sl" \in DOMAIN Ev /\ Ev.sl \in DOMAIN st.w["w1"].ctxs THEN st.w["w1"].ctxs[Ev.sl].acct
+                ELSE st.w["w1"].active IN
+       ChkA(\A k \in DOMAIN st.w["w1"].outs :
+              (st.w["w1"].outs[k].acct # a /\ st.w["w1"].outs[k].acct # st.w["w1"].active)
+                 => (k \in DOMAIN st'.w["w1"].outs /\ st'.w["w1"].outs[k].st = st.w["w1"].outs[k].st),
+            "AccountIsolation")]_vars
+
 \* C17
 Prop_Ttl ==
   [][Stepped =>
